@@ -10,8 +10,9 @@
 
    The access list is C12.InOut.accs false (= the C11 model, C12_accs_is_C11_projection), extended
    here with calls to user routines (Call.reference_accesses: every by-reference argument READWRITE)
-   so that the READWRITE branch of the classification is exercised (statically only: a call has no
-   semantics here).
+   so that the READWRITE branch of the classification is exercised; the semantics of a call is supplied
+   by the harness as an expansion, and the soundness theorem acc_sound_gen holds for ANY clause lists and ANY
+   statement list as the region's semantics.
 
    Two-memory semantics: device copies of arrays are UNDEFINED on entry — an arbitrary function
    [junk : loc -> Z] — except for copyin/copy arrays; the region runs on device memory; on exit the
@@ -38,25 +39,13 @@ Definition classify (isarr : name -> bool) (l : list acc) (x : name) : option cl
 Definition in_clause (isarr : name -> bool) (l : list acc) (c : clause) : list name :=
   filter (fun x => match classify isarr l x with Some c' => clause_eqb c c' | None => false end) (sigs l).
 
-(* ---- regions with calls (static part only) *)
-Inductive xstmt := XCore (s : stmt) | XCall (args : list expr).
-
-(* Call.reference_accesses (call.py:277-318), impure routine: a Reference argument gets READWRITE
-   BEFORE its index expressions are visited; any other argument is walked as an expression *)
-Definition call_arg (e : expr) : list acc :=
-  match e with
-  | EVar x => [(x, READWRITE)]
-  | EIdx a ix => (a, READWRITE) :: rdl (flat_map (ereads_s false) ix)
-  | _ => rdl (ereads_s false e)
-  end.
-Definition xaccs (xs : list xstmt) : list acc :=
-  flat_map (fun x => match x with XCore s => saccs false s | XCall args => flat_map call_arg args end) xs.
+(* ---- regions with calls: the access list [xaccs false] of C12/InOut.v *)
 
 (* ---- comparison with the implementation: (region, declared arrays, copyin, copyout, copy) *)
 Definition acc_case := (list xstmt * list name * list name * list name * list name)%type.
 Definition clauses_agree (c : acc_case) : bool :=
   match c with (xs, arrs, cin, cout, cpy) =>
-    let l := xaccs xs in let isarr := fun x => mem x arrs in
+    let l := xaccs false xs in let isarr := fun x => mem x arrs in
     set_eqb (in_clause isarr l CopyIn) cin && set_eqb (in_clause isarr l CopyOut) cout &&
     set_eqb (in_clause isarr l Copy) cpy
   end.
@@ -145,3 +134,22 @@ Definition acc_reason (isarr : name -> bool) (r : list stmt) (x : name) : nat :=
 Definition dev_final (f : nat) (arrs : list name) (j : Z) (r : list stmt) (st : store) : option store :=
   let isarr := fun x => mem x arrs in
   match exec_dev f isarr (cl_of isarr r) (fun _ => j) r st with Ok s _ _ => Some s | _ => None end.
+
+(* ---- arbitrary clause lists (what the implementation generated), arbitrary region semantics *)
+Definition cl_from (cin cout cpy : list name) : name -> option clause :=
+  fun x => if mem x cpy then Some Copy else if mem x cin then Some CopyIn
+           else if mem x cout then Some CopyOut else None.
+Definition writes_out (isarr : name -> bool) (cl : name -> option clause) (tr : list event) : bool :=
+  forallb (fun l => negb (isarr (fst l)) || copied_out cl (fst l)) (writes tr).
+Definition acc_run_ok_gen (isarr : name -> bool) (cin cout cpy : list name) (st : store) (tr : list event) : bool :=
+  let cl := cl_from cin cout cpy in
+  exposed_ok isarr cl tr && writes_inb isarr st tr && writes_out isarr cl tr &&
+  forallb (fun x => copied_in cl x || forallb (fun idx => lmem (x, idx) (writes tr)) (all_idx (bnd st x))) cout.
+Definition dev_final_cl (f : nat) (arrs cin cout cpy : list name) (j : Z) (r : list stmt) (st : store) : option store :=
+  match exec_dev f (fun x => mem x arrs) (cl_from cin cout cpy) (fun _ => j) r st with Ok s _ _ => Some s | _ => None end.
+(* reason code with calls: classification on the call-aware access list *)
+Definition x_reason (isarr : name -> bool) (xs : list xstmt) (x : name) : nat :=
+  match classify isarr (xaccs false xs) x with
+  | Some CopyOut => if isread x (xaccs false xs) then 2%nat else 1%nat
+  | _ => 0%nat
+  end.
